@@ -22,6 +22,10 @@ pub fn check(tier: Tier) -> Check {
     for r in [1u64, 2, 3] {
         parts.push(Part::new("C10/quota", json!({"depth": tier.pick(5, 7), "r": r, "flavour": 1}), 0, tier.pick(25, 400)));
     }
+    // R announced in a CONNACK that arrives through authorize()
+    for r in [1u64, 2] {
+        parts.push(Part::new("C10/quota", json!({"depth": tier.pick(5, 6), "r": r, "flavour": 2}), 0, tier.pick(25, 400)));
+    }
     parts.push(Part::new("C10/fill", json!({"r": 65535}), 0, 120));
     parts.push(Part::new("C10/fill", json!({"r": 0}), 0, 120));
     parts.push(Part::new("C10/fill", json!({"r": 300}), 0, 120));
